@@ -1,52 +1,8 @@
 ---------------------------- MODULE NotifierDelay ----------------------------
-(***************************************************************************)
-(* robotpy_ext.misc.NotifierDelay: keeps a loop on the time grid           *)
-(* t0 + k*P of the FPGA clock.  Time in microseconds.                      *)
-(* Actions: New(P) (constructor), Body(b) (the loop body takes b us),      *)
-(* Wait (wait()), Free (free() / leaving the with-block).                  *)
-(* Dev "drift": the next alarm is set relative to the return time instead  *)
-(* of the previous alarm (the classic drifting loop).                      *)
-(***************************************************************************)
-EXTENDS Integers, Sequences, TLC
-CONSTANTS Dev
-VARIABLES now, made, t0, P, k, expiry, freed, lastRet, err
-nvars == <<now, made, t0, P, k, expiry, freed, lastRet, err>>
-
-Init == now = 0 /\ made = FALSE /\ t0 = 0 /\ P = 0 /\ k = 0 /\ expiry = 0 /\ freed = FALSE /\ lastRet = 0 /\ err = FALSE
-Max(a, b) == IF a > b THEN a ELSE b
-
-New(p) ==
-    /\ ~made
-    /\ IF p < 1000
-       THEN err' = TRUE /\ UNCHANGED <<now, made, t0, P, k, expiry, freed, lastRet>>      \* ValueError
-       ELSE /\ made' = TRUE /\ t0' = now /\ P' = p /\ k' = 0 /\ expiry' = now + p /\ freed' = FALSE
-            /\ lastRet' = now /\ err' = FALSE /\ UNCHANGED now
-Body(b) == now' = now + b /\ err' = FALSE /\ UNCHANGED <<made, t0, P, k, expiry, freed, lastRet>>
-Wait ==
-    /\ made
-    /\ IF freed
-       THEN lastRet' = now /\ err' = FALSE /\ UNCHANGED <<now, made, t0, P, k, expiry, freed>>   \* returns immediately
-       ELSE /\ now' = Max(now, expiry) /\ lastRet' = now' /\ k' = k + 1
-            /\ expiry' = IF "drift" \in Dev THEN now' + P ELSE expiry + P
-            /\ err' = FALSE /\ UNCHANGED <<made, t0, P, freed>>
-Free == made /\ freed' = TRUE /\ err' = FALSE /\ UNCHANGED <<now, made, t0, P, k, expiry, lastRet>>
-\* entering the with-block (possibly long after construction) changes nothing: the grid is anchored at construction
-Enter == made /\ err' = FALSE /\ UNCHANGED <<now, made, t0, P, k, expiry, freed, lastRet>>
-
+(* NotifierDelayCore (state, actions, properties) plus the event-indexed next-state relation used by the *)
+(* model-checking, simulation and trace-acceptance wrappers.                                            *)
+EXTENDS NotifierDelayCore
 EvEnabled(ev) == CASE ev.e = "new" -> ~made [] ev.e = "body" -> TRUE [] ev.e \in {"wait", "free", "enter"} -> made [] OTHER -> FALSE
 EvNext(ev) == CASE ev.e = "new" -> New(ev.p) [] ev.e = "body" -> Body(ev.b) [] ev.e = "wait" -> Wait [] ev.e = "free" -> Free [] ev.e = "enter" -> Enter
 
-Live == IF made /\ ~freed THEN 1 ELSE 0      \* HAL notifiers held
-NextAlarm == IF made /\ ~freed THEN expiry ELSE -1
-
-(* C16 *)
-\* the alarm is always on the grid
-C16_OnGrid == made => expiry = t0 + (k + 1) * P
-\* the k-th wait() never returns before t0 + k*P ...
-C16_NotEarly == (made /\ k >= 1) => lastRet >= t0 + k * P \/ freed
-\* ... and returns exactly then whenever the body had finished by then; otherwise at once
-C16_ExactWhenOnTime ==
-    [][(made /\ ~freed /\ k' = k + 1) => lastRet' = Max(now, t0 + (k + 1) * P)]_nvars
-C16_FreeReleases == (made /\ freed) => Live = 0
-C16_WaitAfterFreeImmediate == [][(made /\ freed /\ lastRet' # lastRet) => now' = now]_nvars
 =============================================================================
